@@ -48,7 +48,15 @@ func verifHarness_C17_lookup() {
 	}
 	verifAssert(verifInitErr == nil, "C17/dialect-initializes")
 	id := verifNondetU32()
+	// the answer does not depend on what was looked up before: a declared id first (a hit), then the id under test,
+	// twice
+	if len(Dialect.Messages) > 0 {
+		first := Dialect.Messages[0].GetID()
+		verifAssert(verifRW.GetMessage(first) != nil, "C17/first-message-found")
+	}
+	mp0 := verifRW.GetMessage(id)
 	mp := verifRW.GetMessage(id)
+	verifAssert(mp == mp0, "C17/lookup-is-repeatable")
 	declared := false
 	for _, m := range Dialect.Messages {
 		declared = verifOr(declared, m.GetID() == id)
@@ -128,7 +136,7 @@ def tasks(tier):
         b = os.path.basename(d)
         ts.append(Task('verifHarness_C17_lookup', [], {'setup_fn': MODPATH + '/' + d + '.verifSetupDialect'}, pkg=d, group=d))
     for k in (2, 3, 4):
-        for bad in ((0, 1, 2, 3, 8) if k < 4 else (0, 1, 2, 3, 4, 5, 6, 7, 8, 9, 10, 11)):
+        for bad in ((0, 1, 2, 3, 8) if k < 4 else (0, 1, 2, 3, 4, 5, 6, 7, 8, 9, 10, 11, 12)):
             ts.append(Task('verifHarness_C17_duplicates', [k, bad], pkg='pkg/dialect'))
     for dup in (0, 1):
         ts.append(Task('verifHarness_C17_constructors', [dup], pkg='pkg/dialect'))
@@ -141,7 +149,7 @@ def required_reach(tier):
 
 def bounds(tier):
     return {'lookup': 'each of the %d shipped dialects: the looked-up id symbolic over all 2^32 values, table built by the real Initialize' % len(_state.get('dirs', [])),
-            'duplicates': 'user dialects of 2..4 messages whose ids are symbolic (any equalities), optionally with one of 9 malformed structs (unsupported field type, named type without mavenum, enum on an int16 / float / int64 carrier, enum that is not a uint64, arrays of such non-enums, non-numeric mavlen), or with the very same message value listed twice',
+            'duplicates': 'user dialects of 2..4 messages whose ids are symbolic (any equalities), optionally with one of 9 malformed structs (unsupported field type, named type without mavenum, enum on an int16 / float / int64 carrier, enum that is not a uint64, arrays of such non-enums, an array of arrays, non-numeric mavlen), or with the very same message value listed twice',
             'constructors': 'dialect.NewReadWriter / message.NewReadWriter (deprecated) on two messages with symbolic ids: same acceptance, same served codecs and CRC_EXTRA as the struct literal plus Initialize',
             'ground': 'no free variable: evaluated on this run from the struct declarations (front end) and the sources: ids pairwise distinct; '
                       'spec-derived extended size <= 255; CRC_EXTRA pins 50/148 and the published TEST_TYPES 103; included messages are '
